@@ -21,6 +21,24 @@ def schema():
     return {'t': m, 'u': m, 'w': other}
 
 
+def rotated_schema():
+    """The same field tree with every primitive type replaced by another one (number -> string -> boolean -> number):
+    used to put ANOTHER schema check between two checks against schema() on one object."""
+    from hpl import types as T
+
+    def rot(t):
+        if isinstance(t, T.MessageType):
+            return T.MessageType(t.name, fields={n: rot(x) for n, x in t.fields.items()}, constants=dict(t.constants))
+        if isinstance(t, T.ArrayType):
+            return T.ArrayType(t.name, subtype=rot(t.subtype), length=t.length)
+        if t.type == T.DataType.NUMBER:
+            return T.STRINGS
+        if t.type == T.DataType.STRING:
+            return T.BOOLEANS
+        return T.FLOAT64
+    return {k: rot(v) for k, v in schema().items()}
+
+
 def tok(t):
     """Projection of a TypeToken (reads the declared attributes, not the helpers under test)."""
     from hpl import types as T
